@@ -24,9 +24,10 @@ RULE = ("cases = <type> <op> <operands> for types i32/i64/i128/BigInt, GaussInt 
 ASSUME = ["num-integer's gcd (Stein) and lcm are modelled by their results (Z.gcd, |a*(b/gcd)|); extended_gcd is mirrored as a loop",
           "Ratio / FF / Poly / HPoly ring operations (+, -, *) are modelled by their results on canonical representatives "
           "(they are the subject of C14 / C16); div_rem, inv, is_unit, normalizing_unit are mirrored",
-          "theorems are proved for Z, Z[i], Z[omega] (all sizes), for every abstract field, for the model's F_p (p prime) and for "
-          "HPoly over any field; the instances Q = Ratio<_> (beyond 'an abstract field') and K[x] = Poly<_, K> are tied by "
-          "exact correspondence only (see MANIFEST level text)",
+          "theorems are proved for Z, Z[i], Z[omega] (all sizes), for every abstract field, for the model's F_p (p prime), for "
+          "HPoly and for K[x] = Poly<_, K> over any abstract field; that the concrete Ratio<_> operations form a field is "
+          "not proved here (C14's subject): Q, Q[x] and HPoly over Q are covered through the abstract-field theorems plus "
+          "exact correspondence (see MANIFEST level text)",
           "machine-based GaussInt/EisenInt/Ratio operands are kept small enough that no intermediate overflows; overflow "
           "panics of these types are out of scope (BigInt is the exact instance)"]
 
